@@ -640,3 +640,284 @@ def build_T9g(tree):
 
 TARGETS['T9f'] = {'file': 'volume.py', 'build': build_T9f}
 TARGETS['T9g'] = {'file': 'spatial.py', 'build': build_T9g}
+
+
+# ---------------------------------------------------------------------------------------------------------------------
+# bridges for hand-written parts of the model (Proofs/VolumeTie.lean): the expressions of the current source
+def build_T9h(tree):
+    """`to_patient_orientation`: the body of the loop over the desired directions, and what happens after the loop"""
+    fn = find_func(tree, '_VolumeBase.to_patient_orientation')
+    loops = [n for n in fn.body if isinstance(n, ast.For)]
+    if len(loops) != 1 or ast.unparse(loops[0].target) != 'd' or ast.unparse(loops[0].iter) != 'desired_orientation' or loops[0].orelse:
+        raise Unsupported('to_patient_orientation: `for d in desired_orientation` not found')
+    before = ''.join(ast.unparse(s) for s in fn.body if s.lineno < loops[0].lineno).replace(' ', '').replace('\n', '')
+    for needle in ['current_orientation=self.get_closest_patient_orientation()', 'permute_indices=[]', 'flip_axes=[]',
+                   'desired_orientation=_normalize_patient_orientation(patient_orientation)']:
+        if needle not in before:
+            raise Unsupported(f'to_patient_orientation: expected `{needle}` before the loop')
+    after = [''.join(ast.unparse(s).split()) for s in fn.body if s.lineno > loops[0].lineno]
+    if after != ['iflen(flip_axes)>0:result=self.flip_spatial(flip_axes)else:result=self',
+                 'returnresult.permute_spatial_axes(permute_indices)']:
+        raise Unsupported(f'to_patient_orientation: what follows the loop changed: {after}')
+    body = [ast.parse(ast.unparse(s)).body[0] for s in loops[0].body]
+
+    class R(ast.NodeTransformer):
+        def visit_Compare(self, node):
+            if ''.join(ast.unparse(node).split()) == 'dincurrent_orientation':
+                return ast.Name(id='d_in_current', ctx=ast.Load())
+            return self.generic_visit(node)
+
+        def visit_Call(self, node):
+            t = ''.join(ast.unparse(node).split())
+            if t == 'current_orientation.index(d)':
+                return ast.Name(id='index_of_d', ctx=ast.Load())
+            if t == 'current_orientation.index(d_inv)':
+                return ast.Name(id='index_of_opposite', ctx=ast.Load())
+            return self.generic_visit(node)
+
+        def visit_Assign(self, node):
+            if ast.unparse(node.targets[0]) == 'd_inv':
+                if ''.join(ast.unparse(node.value).split()) != 'PATIENT_ORIENTATION_OPPOSITES[d]':
+                    raise Unsupported('d_inv is no longer PATIENT_ORIENTATION_OPPOSITES[d]')
+                return ast.Pass()
+            return self.generic_visit(node)
+
+        def visit_Expr(self, node):
+            v = node.value
+            if isinstance(v, ast.Call) and ast.unparse(v.func) == 'flip_axes.append' and len(v.args) == 1:
+                return [ast.parse('has_flip = True').body[0],
+                        ast.Assign(targets=[ast.Name(id='flip_item', ctx=ast.Store())], value=self.visit(v.args[0]))]
+            if isinstance(v, ast.Call) and ast.unparse(v.func) == 'permute_indices.append' and len(v.args) == 1:
+                return ast.Assign(targets=[ast.Name(id='permute_item', ctx=ast.Store())], value=self.visit(v.args[0]))
+            return node
+    blk = [ast.parse('has_flip = False').body[0], ast.parse('flip_item = 0').body[0]]
+    # the number of entries already in permute_indices is the position in the loop
+    ren = _Rename({})
+    for st in body:
+        out = R().visit(st)
+        blk += out if isinstance(out, list) else [out]
+    for x in blk:
+        ast.fix_missing_locations(x)
+    txt = ''.join(ast.unparse(x) for x in blk)
+    if 'permute_item' not in txt:
+        raise Unsupported('loop body no longer appends to permute_indices')
+    class L(ast.NodeTransformer):
+        def visit_Call(self, node):
+            if ''.join(ast.unparse(node).split()) == 'len(permute_indices)':
+                return ast.Name(id='position', ctx=ast.Load())
+            return self.generic_visit(node)
+    blk = [L().visit(x) for x in blk]
+    blk.append(ast.parse('return (permute_item, has_flip, flip_item)').body[0])
+    for st in blk:
+        ast.fix_missing_locations(st)
+    text = translate_block(blk, 'orientStep', [('d_in_current', 'bool'), ('index_of_d', 'int'), ('index_of_opposite', 'int'),
+                                              ('position', 'int')], {},
+                           doc='`to_patient_orientation`, one desired direction d (the `position`-th): (entry of permute_indices, '
+                               'whether flip_axes gets an entry, that entry); afterwards: flip_spatial(flip_axes) if any, then '
+                               'permute_spatial_axes(permute_indices)')
+    return text, span_sha(loops[0].body)
+
+
+def build_T9i(tree):
+    """spatial.py: PATIENT_ORIENTATION_OPPOSITES and the direction tables / sign test of get_closest_patient_orientation"""
+    from py2lean import lean_table
+    opp = None
+    for st in tree.body:
+        if isinstance(st, ast.Assign) and ast.unparse(st.targets[0]) == 'PATIENT_ORIENTATION_OPPOSITES' and isinstance(st.value, ast.Dict):
+            opp = st.value
+
+    def letter(e):
+        t = ast.unparse(e)
+        if not t.startswith('PatientOrientationValuesBiped.'):
+            raise Unsupported(f'not a PatientOrientationValuesBiped member: {t}')
+        return t.split('.', 1)[1]
+    if opp is None:
+        raise Unsupported('PATIENT_ORIENTATION_OPPOSITES dict literal not found')
+    rows = [f'({_lean_str(letter(k))}, {_lean_str(letter(v))})' for k, v in zip(opp.keys, opp.values)]
+    fn = find_func(tree, 'get_closest_patient_orientation')
+    lists = {}
+    for node in ast.walk(fn):
+        if isinstance(node, ast.Assign) and ast.unparse(node.targets[0]) in ('pos_directions', 'neg_directions') \
+                and isinstance(node.value, ast.List):
+            lists[ast.unparse(node.targets[0])] = [letter(e) for e in node.value.elts]
+    if set(lists) != {'pos_directions', 'neg_directions'}:
+        raise Unsupported('pos_directions / neg_directions list literals not found')
+    # the sign test: which table the direction is taken from
+    iff = None
+    for node in ast.walk(fn):
+        if isinstance(node, ast.If) and 'alignments[i, d]' in ast.unparse(node.test):
+            iff = node
+    if iff is None:
+        raise Unsupported('sign test on alignments[i, d] not found')
+    ren = {'alignments[i, d]': 'a', 'pos_directions[i]': 'one', 'neg_directions[i]': 'zero'}
+    st = _Rename(ren).visit(ast.parse(ast.unparse(iff)).body[0])
+
+    class A(ast.NodeTransformer):
+        def visit_Expr(self, node):
+            v = node.value
+            if isinstance(v, ast.Call) and ast.unparse(v.func) == 'result.append' and len(v.args) == 1:
+                return ast.Return(value=v.args[0])
+            return node
+    st = A().visit(st)
+    ast.fix_missing_locations(st)
+    sign = translate_block([st], 'closestSign', [('a', 'rat')], {}, consts={'one': ('int', '(1 : Int)'), 'zero': ('int', '(0 : Int)')},
+                           doc='`get_closest_patient_orientation`: 1 = direction taken from pos_directions, 0 = from neg_directions, '
+                               'for alignment entry a')
+    text = (lean_table('orientOpposites', 'List (String × String)', rows, '`spatial.PATIENT_ORIENTATION_OPPOSITES`')
+            + '\n\n/-- `pos_directions` of get_closest_patient_orientation (by frame-of-reference axis) -/\n'
+            + 'def closestPosDirs : List String := [' + ', '.join(_lean_str(x) for x in lists['pos_directions']) + ']'
+            + '\n\n/-- `neg_directions` -/\ndef closestNegDirs : List String := ['
+            + ', '.join(_lean_str(x) for x in lists['neg_directions']) + ']\n\n' + sign)
+    return text, hashlib.sha256((repr(rows) + repr(lists) + ast.unparse(iff)).encode()).hexdigest()
+
+
+def build_T9j(tree):
+    """`Volume.pad.pad_array`: which value pads for which mode, and the mode handed to numpy.pad"""
+    from py2lean import lean_table
+    fn = find_func(tree, 'Volume.pad')
+    pa = None
+    for n in fn.body:
+        if isinstance(n, ast.FunctionDef) and n.name == 'pad_array':
+            pa = n
+    if pa is None or [a.arg for a in pa.args.args] != ['array', 'cval']:
+        raise Unsupported('nested pad_array(array, cval) not found in Volume.pad')
+    body = strip_doc(pa.body)
+    if len(body) != 2 or not isinstance(body[0], ast.If) or not isinstance(body[1], ast.Return):
+        raise Unsupported('pad_array is no longer `if used_mode == CONSTANT: ... else: ...; return np.pad(...)`')
+    top = body[0]
+    if ''.join(ast.unparse(top.test).split()) != 'used_mode==PadModes.CONSTANT':
+        raise Unsupported('pad_array: outer test is no longer `used_mode == PadModes.CONSTANT`')
+    if [''.join(ast.unparse(x).split()) for x in top.orelse] != ['pad_kwargs={}']:
+        raise Unsupported('pad_array: non-constant branch no longer passes no extra arguments')
+    if ''.join(ast.unparse(top.body[-1]).split()) != "pad_kwargs={'constant_values':v}":
+        raise Unsupported("pad_array: constant branch no longer ends in pad_kwargs = {'constant_values': v}")
+    ret = ''.join(ast.unparse(body[1]).split())
+    if ret != 'returnnp.pad(array,pad_width=full_pad_width,mode=used_mode.value.lower(),**pad_kwargs)':
+        raise Unsupported(f'pad_array: the numpy.pad call changed: {ret}')
+    rows = []
+    node = top.body[0]
+    if len(top.body) != 2 or not isinstance(node, ast.If):
+        raise Unsupported('pad_array: constant branch is no longer an if-chain followed by pad_kwargs')
+    red = {'array.min()': 'min', 'array.max()': 'max', 'array.mean()': 'mean', 'np.median(array)': 'median', 'cval': 'cval'}
+    while node is not None:
+        t = ''.join(ast.unparse(node.test).split())
+        if not t.startswith('mode==PadModes.'):
+            raise Unsupported(f'pad_array: unexpected test {t}')
+        if len(node.body) != 1 or not isinstance(node.body[0], ast.Assign) or ast.unparse(node.body[0].targets[0]) != 'v':
+            raise Unsupported('pad_array: branch is no longer a single `v = ...`')
+        e = ''.join(ast.unparse(node.body[0].value).split())
+        if e not in red:
+            raise Unsupported(f'pad_array: unrecognised padding value expression {e}')
+        rows.append(f'({_lean_str(t.split(".", 1)[1])}, {_lean_str(red[e])})')
+        if len(node.orelse) == 1 and isinstance(node.orelse[0], ast.If):
+            node = node.orelse[0]
+        elif not node.orelse:
+            node = None
+        else:
+            raise Unsupported('pad_array: if-chain has a plain else branch')
+    text = lean_table('padValueTable', 'List (String × String)', rows,
+                      '`Volume.pad.pad_array`: mode (enum member) ↦ what is handed to numpy.pad as constant_values '
+                      '(min / max / mean / median of the array, or the caller\'s constant); modes not listed are padded by '
+                      'numpy.pad(mode=used_mode.value.lower()) without constant')
+    return text, span_sha(pa.body)
+
+
+def _exec_block(stmts, ns):
+    mod = ast.Module(body=[ast.parse(ast.unparse(s)).body[0] for s in stmts], type_ignores=[])
+    ast.fix_missing_locations(mod)
+    exec(compile(mod, '<source>', 'exec'), ns)   # noqa: S102  (the current source, on label data)
+    return ns
+
+
+PERMS = [[0, 1, 2], [0, 2, 1], [1, 0, 2], [1, 2, 0], [2, 0, 1], [2, 1, 0]]
+
+
+def _perm_rows(rows):
+    return ['([' + ', '.join(map(str, p)) + '], [' + ', '.join(map(str, r)) + '])' for p, r in rows]
+
+
+def build_T9k(tree):
+    """`permute_spatial_axes` of VolumeGeometry (new shape) and Volume (array): evaluated on label data for the six permutations"""
+    import numpy as np
+    from py2lean import lean_table
+    gfn = find_func(tree, 'VolumeGeometry.permute_spatial_axes')
+    vfn = find_func(tree, 'Volume.permute_spatial_axes')
+    gb, vb = strip_doc(gfn.body), strip_doc(vfn.body)
+    for b, q in ((gb, 'VolumeGeometry'), (vb, 'Volume')):
+        if ''.join(ast.unparse(b[0]).split()) != 'new_affine=self._permute_affine(indices)' or not isinstance(b[-1], ast.Return):
+            raise Unsupported(f'{q}.permute_spatial_axes: no longer `new_affine = self._permute_affine(indices)` ... return')
+    gret, vret = ''.join(ast.unparse(gb[-1]).split()), ''.join(ast.unparse(vb[-1]).split())
+    if 'spatial_shape=new_shape' not in gret or 'affine=new_affine' not in gret:
+        raise Unsupported('VolumeGeometry.permute_spatial_axes: result no longer built from new_shape / new_affine')
+    if 'array=new_array' not in vret or 'affine=new_affine' not in vret or 'channels=self._channels' not in vret:
+        raise Unsupported('Volume.permute_spatial_axes: result no longer built from new_array / new_affine / self._channels')
+
+    class Stub:
+        pass
+    grows, arows = [], []
+    sizes = (2, 3, 5)
+    for p in PERMS:
+        try:
+            st = Stub()
+            st.spatial_shape = (0, 1, 2)          # labels: position k holds label k
+            ns = _exec_block(gb[1:-1], {'self': st, 'indices': list(p), 'np': np})
+            grows.append((p, [int(x) for x in ns['new_shape']]))
+            st = Stub()
+            st._array = np.zeros(sizes + (1,))
+            st.array = st._array
+            st.number_of_channel_dimensions = 1
+            ns = _exec_block(vb[1:-1], {'self': st, 'indices': list(p), 'np': np})
+            shp = tuple(ns['new_array'].shape)
+            if len(shp) != 4 or shp[3] != 1 or sorted(shp[:3]) != sorted(sizes):
+                raise Unsupported(f'Volume.permute_spatial_axes on label data gives shape {shp}')
+            arows.append((p, [sizes.index(x) for x in shp[:3]]))
+        except Unsupported:
+            raise
+        except Exception as e:  # noqa: BLE001
+            raise Unsupported(f'permute_spatial_axes could not be evaluated on label data: {type(e).__name__}: {e}')
+    text = (lean_table('permGeomShape', 'List (List Nat × List Nat)', _perm_rows(grows),
+                       '`VolumeGeometry.permute_spatial_axes`: indices ↦ for each new axis the old axis whose size it gets '
+                       '(the statements computing new_shape, evaluated on labels)')
+            + '\n\n' + lean_table('permArrayAxes', 'List (List Nat × List Nat)', _perm_rows(arows),
+                                   '`Volume.permute_spatial_axes`: indices ↦ for each new axis of the array the old axis it is '
+                                   '(the statements computing new_array, evaluated on an array with sizes 2, 3, 5)'))
+    return text, span_sha(gb + vb)
+
+
+def build_T9l(tree):
+    """spatial.py `_transform_affine_matrix(permute_indices=p)`: evaluated on a label matrix for the six permutations"""
+    import numpy as np
+    from py2lean import lean_table
+    fn = find_func(tree, '_transform_affine_matrix')
+    src = ast.Module(body=[ast.parse(ast.unparse(fn)).body[0]], type_ignores=[])
+    ast.fix_missing_locations(src)
+    ns = {'np': np, 'Sequence': list}
+    try:
+        exec(compile(src, '<spatial.py>', 'exec'), ns)   # noqa: S102
+    except Exception as e:  # noqa: BLE001
+        raise Unsupported(f'_transform_affine_matrix could not be compiled: {e}')
+    rows = []
+    for p in PERMS:
+        a = np.eye(4)
+        for d in range(3):
+            a[:3, d] = [10 * (d + 1), 0, 0]      # column d carries the label 10 (d + 1)
+        a[:3, 3] = [7, 8, 9]
+        try:
+            out = ns['_transform_affine_matrix'](affine=a.copy(), shape=(2, 3, 5), permute_indices=list(p))
+        except Exception as e:  # noqa: BLE001
+            raise Unsupported(f'_transform_affine_matrix could not be evaluated on label data: {type(e).__name__}: {e}')
+        cols = [int(round(out[0, k] / 10)) - 1 for k in range(3)]
+        if sorted(cols) != [0, 1, 2] or list(out[:3, 3]) != [7, 8, 9] or list(out[3]) != [0, 0, 0, 1]:
+            raise Unsupported(f'_transform_affine_matrix(permute_indices={p}) no longer permutes columns only: {out.tolist()}')
+        rows.append((p, cols))
+    text = lean_table('permAffineCols', 'List (List Nat × List Nat)', _perm_rows(rows),
+                      '`_transform_affine_matrix(permute_indices=p)`: p ↦ for each new column the old column it is '
+                      '(evaluated on a label matrix; translation and last row are left alone)')
+    return text, span_sha(fn.body)
+
+
+TARGETS['T9h'] = {'file': 'volume.py', 'build': build_T9h}
+TARGETS['T9i'] = {'file': 'spatial.py', 'build': build_T9i}
+TARGETS['T9j'] = {'file': 'volume.py', 'build': build_T9j}
+TARGETS['T9k'] = {'file': 'volume.py', 'build': build_T9k}
+TARGETS['T9l'] = {'file': 'spatial.py', 'build': build_T9l}
